@@ -236,6 +236,13 @@ func (w *World) lintFn(fn *ssa.Function, path []string) (hits []lintHit, mapRang
 					hit("select statement", in)
 				}
 			case *ssa.BinOp:
+				switch x.Op {
+				case token.EQL, token.NEQ, token.LSS, token.LEQ, token.GTR, token.GEQ:
+					// a value compared with itself decides nothing (x != x on floats is the NaN test and is reported as float use)
+					if !isFloat(x.X.Type()) && sameOperand(x.X, x.Y) {
+						hit("comparison of a value with itself", in)
+					}
+				}
 				if isFloat(x.X.Type()) || isFloat(x.Y.Type()) {
 					switch x.Op {
 					case token.EQL, token.NEQ, token.LSS, token.LEQ, token.GTR, token.GEQ:
@@ -274,6 +281,22 @@ func (w *World) lintFn(fn *ssa.Function, path []string) (hits []lintHit, mapRang
 				}
 				if strings.HasPrefix(n, "math/rand.") || strings.HasPrefix(n, "math/rand/v2.") || strings.HasPrefix(n, "crypto/rand.") {
 					hit("call "+n, in)
+				}
+				// equality helpers applied to one and the same operand: a.Y.Equals(&a.Y), bytes.Equal(x, x)
+				if c := x.Common(); !c.IsInvoke() && len(c.Args) == 2 && c.Signature().Results().Len() == 1 {
+					switch lastName(n) {
+					case "Equal", "Equals", "IsEqual", "Compare", "Cmp", "EqualFold":
+						if sameOperand(c.Args[0], c.Args[1]) {
+							hit("comparison of a value with itself", in)
+						}
+					}
+				}
+				// a cache context created outside a loop whose write function is called inside it is shared by the
+				// iterations: what a failed iteration wrote is committed by the next successful one
+				if lastName(n) == "CacheContext" && x.Common().Signature().Results().Len() == 2 {
+					if v, ok := in.(*ssa.Call); ok && cacheSharedByLoop(fn, v) {
+						hit("cache context shared by the iterations of a loop", in)
+					}
 				}
 				switch n { // unstable sorts: the relative order of equal elements is unspecified - a census site
 				case "sort.Slice", "sort.Sort", "slices.SortFunc", "golang.org/x/exp/slices.SortFunc":
@@ -494,4 +517,59 @@ func panickyDep(name string) (string, bool) {
 	}
 	why, ok := table[name]
 	return why, ok
+}
+
+// sameOperand: the two operands are the same SSA value, or render to the same call-free, non-constant term
+// (e.g. the field address a.Y taken twice).
+func sameOperand(a, b ssa.Value) bool {
+	if _, isConst := a.(*ssa.Const); isConst {
+		return false
+	}
+	if a == b {
+		return true
+	}
+	ta, tb := Render(a), Render(b)
+	if ta.Op == "const" || ta.Op == "opaque" || ta.Has("call") || ta.Has("opaque") || ta.Has("phi") {
+		return false
+	}
+	for at := range ta.Atoms() {
+		if strings.HasPrefix(at, "call:") {
+			return false
+		}
+	}
+	return ta.String() == tb.String()
+}
+
+// cacheSharedByLoop: the write function of this CacheContext() call is invoked inside a natural loop that does not
+// contain the CacheContext() call itself.
+func cacheSharedByLoop(fn *ssa.Function, cc *ssa.Call) bool {
+	if cc.Referrers() == nil {
+		return false
+	}
+	var writeCalls []*ssa.BasicBlock
+	for _, r := range *cc.Referrers() {
+		ex, ok := r.(*ssa.Extract)
+		if !ok || ex.Index != 1 || ex.Referrers() == nil {
+			continue
+		}
+		for _, u := range *ex.Referrers() {
+			if ci, ok := u.(ssa.CallInstruction); ok && ci.Common().Value == ex {
+				writeCalls = append(writeCalls, ci.Block())
+			}
+		}
+	}
+	if len(writeCalls) == 0 {
+		return false
+	}
+	for _, loop := range naturalLoops(fn) {
+		if loop[cc.Block()] {
+			continue
+		}
+		for _, b := range writeCalls {
+			if loop[b] {
+				return true
+			}
+		}
+	}
+	return false
 }
